@@ -818,43 +818,106 @@ func (e *pathEnv) resolveReturn(r *ssa.Return) *ssa.Return {
 	return out
 }
 
-// returnVariants lists r and, when results are phis, one synthetic Return per incoming value
-// (used to count the target instructions of an obligation independently of return-value joins).
+// returnVariants lists r and, when results are joins (phis), the forms the return takes per path:
+// phis of one block are resolved together, one variant per predecessor of that block (the results
+// of an inlined helper's return sites stay correlated); remaining joins are expanded recursively.
 func returnVariants(r *ssa.Return) []*ssa.Return {
 	out := []*ssa.Return{r}
+	seen := map[string]bool{}
 
-	for i, v := range r.Results {
-		phi, ok := stripIface(v).(*ssa.Phi)
+	var expand func(cur *ssa.Return, depth int)
+
+	expand = func(cur *ssa.Return, depth int) {
+		if depth > 4 || len(out) > 64 {
+			return
+		}
+
+		// first block that owns a phi result
+		var blk *ssa.BasicBlock
+
+		for _, v := range cur.Results {
+			if phi, ok := stripIface(v).(*ssa.Phi); ok {
+				blk = phi.Block()
+
+				break
+			}
+		}
+
+		if blk == nil {
+			return
+		}
+
+		for k := range blk.Preds {
+			c := cloneInstr(cur).(*ssa.Return)
+			key := ""
+
+			for i, v := range cur.Results {
+				if phi, ok := stripIface(v).(*ssa.Phi); ok && phi.Block() == blk && k < len(phi.Edges) {
+					c.Results[i] = phi.Edges[k]
+				}
+
+				key += valueID(c.Results[i]) + ","
+			}
+
+			if seen[key] {
+				continue
+			}
+
+			seen[key] = true
+			out = append(out, c)
+			expand(c, depth+1)
+		}
+	}
+
+	expand(r, 0)
+
+	// drop intermediate forms that still contain joins when fully resolved forms exist
+	if len(out) > 1 {
+		var leafs []*ssa.Return
+
+		for _, c := range out[1:] {
+			hasPhi := false
+
+			for _, v := range c.Results {
+				if _, ok := stripIface(v).(*ssa.Phi); ok {
+					hasPhi = true
+				}
+			}
+
+			if !hasPhi {
+				leafs = append(leafs, c)
+			}
+		}
+
+		if len(leafs) > 0 {
+			return append([]*ssa.Return{r}, leafs...)
+		}
+	}
+
+	return out
+}
+
+// ReturnForms lists the returns of f as they occur per path: a return of joined values is listed
+// once per resolved form (see returnVariants), a plain return once.
+func ReturnForms(f *ssa.Function) []*ssa.Return {
+	var out []*ssa.Return
+
+	for _, b := range f.Blocks {
+		if b == f.Recover || len(b.Instrs) == 0 {
+			continue
+		}
+
+		r, ok := b.Instrs[len(b.Instrs)-1].(*ssa.Return)
 		if !ok {
 			continue
 		}
 
-		seen := map[ssa.Value]bool{}
-
-		var leaves func(v ssa.Value, d int)
-
-		leaves = func(v ssa.Value, d int) {
-			v = stripIface(v)
-			if seen[v] || d > 6 {
-				return
-			}
-
-			seen[v] = true
-
-			if ph, ok := v.(*ssa.Phi); ok {
-				for _, e := range ph.Edges {
-					leaves(e, d+1)
-				}
-
-				return
-			}
-
-			c := cloneInstr(r).(*ssa.Return)
-			c.Results[i] = v
-			out = append(out, c)
+		vs := returnVariants(r)
+		if len(vs) == 1 {
+			out = append(out, r)
+		} else {
+			out = append(out, vs[1:]...)
 		}
-
-		leaves(phi, 0)
 	}
 
 	return out
